@@ -301,7 +301,7 @@ mod groups {
     /// The same eviction step with FIXED, pairwise distinct sender keys (the LRU clocks, the windows and
     /// the received counter stay symbolic): cheap enough for the quick tier. The fully symbolic version
     /// is `c04_group_store_evict_step`.
-    // TIER: quick   KIND: bounded (sender keys fixed: (1, 1)..(1, 16) tracked, (2, 99) new; clocks, windows and counter symbolic)
+    // TIER: quick!  KIND: bounded (sender keys fixed: (1, 1)..(1, 16) tracked, (2, 99) new; one symbolic window shared by the tracked senders; clocks and counter symbolic)
     #[kani::proof]
     #[kani::unwind(18)]
     fn c04_group_store_evict_step_fixed_keys() {
@@ -309,12 +309,14 @@ mod groups {
         st.clock = kani::any();
         let (fab, node) = (2u8, 99u64);
         let m: u32 = kani::any();
+        // (one symbolic window shared by all tracked senders: whichever of them is the victim carries it)
+        let (wmax, wbm): (u32, u16) = (kani::any(), kani::any());
         let mut i = 0u64;
         while i < MAX_GROUP_CTR_ENTRIES as u64 {
             let _ = st.entries.push(GroupCtrEntry {
                 fab_idx: 1,
                 src_nodeid: i + 1,
-                rx_ctr: RxCtrState { max_ctr: kani::any(), ctr_bitmap: kani::any() },
+                rx_ctr: RxCtrState { max_ctr: wmax, ctr_bitmap: wbm },
                 last_used: kani::any(),
             });
             i += 1;
